@@ -104,9 +104,21 @@ func (e *env) close() {
 	os.RemoveAll(e.dir)
 }
 
-// listenAddr is the address as written in the config; poolKey is its listenerPool /
-// unixSockets key (network + "/" + address).
-func (e *env) listenAddr(a int) string { return e.poolKey(a) }
+// listenAddr is the address as written in the config of generation gen; poolKey is its
+// listenerPool / unixSockets key (network + "/" + address). u1 is always written with
+// permission bits, and with different ones in consecutive configs: the key of a unix socket
+// must not depend on them ("split unix socket addr early so lnKey is independent of
+// permissions bits", listeners.go), otherwise a reload unlinks and re-binds the socket the
+// running config serves instead of taking it over. u0 is always written plain.
+func (e *env) listenAddr(a, gen int) string {
+	if a == nTCP+1 {
+		if gen%2 == 0 {
+			return e.poolKey(a) + "|0660"
+		}
+		return e.poolKey(a) + "|0620"
+	}
+	return e.poolKey(a)
+}
 
 func (e *env) poolKey(a int) string {
 	if isUnix(a) {
